@@ -414,6 +414,26 @@ def main(pid, tier, seed):
             meta[tid] = dict(m, ruleset=desc, expected_len=len(E), sessions=[len(s['lines']) for s in sess],
                              check=str(m.get('script', m.get('stdin', m.get('quit_after_guesses')))),
                              q=[s['q'] for s in sess])
+    # ---- spec -> code: behaviours written by `tlc -simulate` on Session.tla replayed as gate schedules ----
+    s2c = None
+    if pid == 'C12':
+        from . import simreplay
+        import collections
+        cnt = collections.Counter()
+        bad = []
+        nb = 0
+        for k in range(1 if tier == 'quick' else 4):
+            path = os.path.join(work, 'r%d' % k)
+            E, PTS = sessrules.expected(path, with_pts=True)
+            behs = simreplay.simulate(PTS, 30 if tier == 'quick' else 250, 70, seed * 100 + k + 1, core.scratch('sim'))
+            for b in behs:
+                res = simreplay.replay(path, E, PTS, b, core.scratch('simw'))
+                cnt[res['result']] += 1
+                nb += 1
+                if res['result'] == 'mismatch':
+                    bad.append(res['detail'])
+        s2c = {'behaviours_from_tlc_simulate': nb, 'results': dict(cnt), 'mismatches': bad[:3],
+               'compared': 'real stream and real save file after the last action of each behaviour'}
     if pid == 'C15':
         otraces, tid = generator_resume_traces(tid, rng, tier, meta)
 
@@ -465,6 +485,7 @@ def main(pid, tier, seed):
                    'keyboard script plus its resume, or one pcfg_guesser.py subprocess under one stdin condition; (C15) quit inside a Markov '
                    'level at position j followed by further quit/resume cycles, or one MarkovCracker save/load at cut j',
            'rulesets': n_rules, 'trace_validation': {'TrSession': st, 'TrOmen': st2, 'TrSession_I': ist}, 'exhaustive': False,
+           'spec_to_code': s2c,
            'impl_conformance': {'gate_logs': n_itr, 'result': 'drift' if drift else 'conforms', 'drift_examples': drift[:3], 'n_drift': len(drift)},
            'known_findings_reproduced': n_known, 'violation_histogram': verdict.histogram()}
     core.write_evidence(pid, tier, seed, 'model_checking', cov, time.time() - t0, violations=n_viol,
